@@ -83,7 +83,7 @@ func checkStruct(c structCase, r *h.Rec) error {
 func x32(v *big.Int) []byte { return new(big.Int).Mod(v, pow256).FillBytes(make([]byte, 32)) }
 
 func TestC05_StructuredCoordinates(t *testing.T) {
-	h.Prop(t, h.P{Name: "structured-coordinates", Quick: 12000, Thorough: 400000, Journal: true}, func(t *rapid.T) structCase {
+	h.Prop(t, h.P{Name: "structured-coordinates", Quick: 12000, Thorough: 200000, Journal: true}, func(t *rapid.T) structCase {
 		s := drawStructured256(t, "x")
 		odd := rapid.IntRange(0, 1).Draw(t, "odd")
 		switch rapid.IntRange(0, 9).Draw(t, "domain") {
@@ -136,6 +136,36 @@ func TestC05_StructuredXSweep(t *testing.T) {
 						i++
 					}
 				}
+			}
+		}
+	}, checkStruct)
+}
+
+// Every x of the form 2^a - 2^b (one run of one bits), raw, negated and in the
+// Montgomery domain: squares of such values ripple carries through whole
+// limbs. Quick: a, b on the 16-bit grid and its neighbours; thorough: all
+// 0 <= b < a <= 256.
+func TestC05_StructuredRunSweep(t *testing.T) {
+	h.MarkExhaustive("structured-run-sweep")
+	var grid []int
+	for k := 0; k <= 256; k++ {
+		if h.Thorough() || k%16 == 0 || k%16 == 1 || k%16 == 15 {
+			grid = append(grid, k)
+		}
+	}
+	h.Sweep(t, h.P{Name: "structured-run-sweep", Journal: true}, func(emit func(structCase)) {
+		i := 0
+		for _, a := range grid {
+			for _, b := range grid {
+				if b >= a {
+					continue
+				}
+				s := new(big.Int).Sub(pw(uint(a)), pw(uint(b)))
+				emit(structCase{x32(s), i & 1, "structured x (raw)"})
+				emit(structCase{x32(new(big.Int).Sub(ref.SM2P, new(big.Int).Mod(s, ref.SM2P))), i >> 1 & 1, "structured p - x (raw)"})
+				emit(structCase{x32(montStructured(s, ref.SM2P)), i >> 2 & 1, "structured x in the Montgomery domain"})
+				emit(structCase{x32(montStructured(new(big.Int).Sub(ref.SM2P, new(big.Int).Mod(s, ref.SM2P)), ref.SM2P)), i >> 3 & 1, "structured x in the Montgomery domain"})
+				i++
 			}
 		}
 	}, checkStruct)
